@@ -20,3 +20,4 @@ pub mod c15;
 pub mod c16;
 pub mod c18;
 pub mod c19;
+pub mod exp;
